@@ -40,9 +40,12 @@ def ovrlist(e): return {'op': 'ovrlist', 'e': e}
 def skipto(e): return {'op': 'skipto', 'e': e}
 
 
-def rule(name, exp, isname=False, nomemo=False, lrec=False, memo=True, params=(), typ=()):
-    return {'name': name, 'exp': exp, 'tokn': name.lstrip('_')[:1].isupper(), 'isname': isname, 'nomemo': nomemo,
-            'lrec': lrec, 'memo': memo, 'params': list(params), 'typ': list(typ)}
+def rule(name, exp, isname=False, nomemo=False, lrec=False, memo=True, params=(), typ=(), nostak=False):
+    r = {'name': name, 'exp': exp, 'tokn': name.lstrip('_')[:1].isupper(), 'isname': isname, 'nomemo': nomemo,
+         'lrec': lrec, 'memo': memo, 'params': list(params), 'typ': list(typ)}
+    if nostak:
+        r['nostak'] = True        # @nostak: documented as keeping the rule off the call stack shown in traces; no effect on results
+    return r
 
 
 def grammar(*rules, keywords=()):
@@ -217,6 +220,8 @@ def to_ebnf(g, directives=None, name=None):
             lines.append('@name')
         if r.get('nomemo'):
             lines.append('@nomemo')
+        if r.get('nostak'):
+            lines.append('@nostak')
         params = ''
         if r.get('params'):
             params = '[' + ', '.join(r['params']) + ']'
